@@ -59,6 +59,44 @@ def B(mid, props, file, old, new, note=""):
     BENIGN.append({"id": mid, "props": props if isinstance(props, (list, tuple)) else [props], "edits": [(file, old, new)], "note": note})
 
 
+def _patch_edits(relpath):
+    """Unified diff (kept under /verif) -> [(file, old block, new block)] per hunk."""
+    here = os.path.dirname(os.path.dirname(os.path.abspath(__file__)))
+    edits, cur, old, new = [], None, [], []
+
+    def flush():
+        if cur is not None and (old or new) and old != new:
+            edits.append((cur, "".join(old), "".join(new)))
+
+    with open(os.path.join(here, relpath), encoding="utf-8") as f:
+        for line in f:
+            if line.startswith("+++ b/"):
+                flush()
+                cur, old, new = line[6:].strip(), [], []
+            elif line.startswith("@@"):
+                flush()
+                old, new = [], []
+            elif line.startswith(("diff ", "index ", "--- ", "\\")):
+                continue
+            elif cur is not None and line[:1] in " -+":
+                if line[0] in " -":
+                    old.append(line[1:])
+                if line[0] in " +":
+                    new.append(line[1:])
+    flush()
+    return edits
+
+
+def MP(mid, prop, rule, patch, note=""):
+    """Breaking edit taken from a kept seeded change (/verif/seeded/<id>/patch.diff)."""
+    MUTANTS.append({"id": mid, "prop": prop, "rule": rule, "edits": _patch_edits(patch), "note": note or f"from {patch}"})
+
+
+def BP(mid, props, patch, note=""):
+    """Benign edit taken from the benign corpus (/verif/benign/*.diff)."""
+    BENIGN.append({"id": mid, "props": props if isinstance(props, (list, tuple)) else [props], "edits": _patch_edits(patch), "note": note or f"from {patch}"})
+
+
 from . import mutants as _m  # noqa: E402,F401  (fills MUTANTS / BENIGN)
 
 
